@@ -301,8 +301,45 @@ Definition fraglist_of (meta : graph) (fgs : fgraphs) : list (Z * list Z) :=
   flat_map (fun mn => match fg_get (nk mn) fgs with
                       | Some g => match g with [] => [] | _ => [(nk mn, node_keys g)] end
                       | None => [] end) meta.
+(** /repo 8dbd471: every atom is named ONCE.  [named] = the atoms named so far (Python set; only membership is
+    used), [used] = the names the already-named atoms of this fragment carry; the running index steps over them. *)
+Definition atom_label (e : pystr) (idx : Z) : pystr := e ++ str_of_Z idx.
+Definition zin_l (k : Z) (l : list Z) : bool := existsb (Z.eqb k) l.
+Definition name_taken (used : list pyval) (nm : pystr) : bool := existsb (pyval_eqb (VStr nm)) used.
+(** `while atomname in used: idx += 1`; at most [length used] names can be taken, so the fuel suffices *)
+Fixpoint bump_idx (fuel : nat) (used : list pyval) (e : pystr) (idx : Z) : res Z :=
+  match fuel with
+  | O => Err EOutOfFuel
+  | Datatypes.S f => if name_taken used (atom_label e idx) then bump_idx f used e (idx + 1) else Ok idx
+  end.
+Definition used_names (mol : graph) (named nodes : list Z) : res (list pyval) :=
+  map_res (fun n => a <- node_attrs mol n ;; of_option (aget (S "atomname") a) EKey)
+          (filter (fun n => zin_l n named) nodes).
+Definition nstate := (graph * fgraphs * list Z)%type.
+Definition name_node (mn : Z) (used : list pyval) (st : nstate * Z) (node : Z) : res (nstate * Z) :=
+  let '(mol, fgs, named, idx) := st in
+  '(mol1, named1, idx1) <-
+     (if zin_l node named then Ok (mol, named, idx) else
+        a <- node_attrs mol node ;;
+        el <- of_option (aget (S "element") a) EKey ;;
+        e <- as_str el ;;
+        i <- bump_idx (Datatypes.S (length used)) used e idx ;;
+        Ok (set_node_attr mol node (S "atomname") (VStr (atom_label e i)), node :: named, i)) ;;
+  a1 <- node_attrs mol1 node ;;
+  nm <- of_option (aget (S "atomname") a1) EKey ;;
+  let fgs1 := match fg_get mn fgs with
+              | Some g => fg_set mn (set_node_attr g node (S "atomname") nm) fgs
+              | None => fgs
+              end in
+  Ok (mol1, fgs1, named1, idx1 + 1).
+Definition name_group2 (st : nstate) (grp : Z * list Z) : res nstate :=
+  let '(mol, fgs, named) := st in
+  used <- used_names mol named (snd grp) ;;
+  r <- fold_res (name_node (fst grp) used) (snd grp) (st, 0) ;;
+  Ok (fst r).
 Definition set_atom_names (mol meta : graph) (fgs : fgraphs) : res (graph * fgraphs) :=
-  fold_res name_group (fraglist_of meta fgs) (mol, fgs).
+  r <- fold_res name_group2 (fraglist_of meta fgs) (mol, fgs, []) ;;
+  Ok (fst (fst r), snd (fst r)).
 
 (** set_atom_names_atomistic(molecule) without a coarse graph: groups by the single fragid, in
     first-seen order; only the molecule is renamed *)
